@@ -46,12 +46,14 @@ var errTransport = errors.New("scripted transport failure")
 
 type reply struct {
 	fail   bool
+	cancel bool // slow reply: the caller's context is cancelled while the round trip is outstanding
 	status int
 	prob   string
 	nonce  string
 }
 
 type server struct {
+	cancel context.CancelFunc
 	nurl   bool
 	script []reply
 	reqs   []string
@@ -94,6 +96,11 @@ func (s *server) RoundTrip(req *http.Request) (*http.Response, error) {
 	}
 	if r.fail {
 		return nil, errTransport
+	}
+	if r.cancel {
+		s.cancel()
+		<-req.Context().Done()
+		return nil, req.Context().Err()
 	}
 	h := http.Header{}
 	if r.nonce != "" {
@@ -151,6 +158,10 @@ func execHTTP(o hx.Op) string {
 			srv.script = append(srv.script, reply{fail: true})
 			continue
 		}
+		if e == "c" {
+			srv.script = append(srv.script, reply{cancel: true})
+			continue
+		}
 		f := strings.Split(e, ":")
 		if len(f) < 3 {
 			return "bad-op"
@@ -169,6 +180,7 @@ func execHTTP(o hx.Op) string {
 	}
 	ctx, cancel := context.WithCancel(context.Background())
 	defer cancel()
+	srv.cancel = cancel
 	bo, cancelAt, calls := o.Int("bo"), o.Int("cancel"), 0
 	c := &acme.Client{Key: key(), DirectoryURL: base + "dir", HTTPClient: &http.Client{Transport: srv}}
 	c.RetryBackoff = func(n int, _ *http.Request, _ *http.Response) time.Duration {
@@ -274,6 +286,11 @@ func genHTTP(g *hx.Gen) {
 		if r.Chance(1, 25) {
 			resp = append(resp, "x")
 			g.Stat("reply.transport-error")
+			continue
+		}
+		if r.Chance(1, 40) {
+			resp = append(resp, "c")
+			g.Stat("ctx.cancelled-during-round-trip")
 			continue
 		}
 		status, prob := 200, "-"
